@@ -1704,9 +1704,8 @@ Example local_example :
 Proof. vm_compute. reflexivity. Qed.
 
 (* ------------------------------------------------------------------ *)
-(* RE-ENTRANT SEND: a call issued from inside the serialization of another call (issue_nested / release_nested in lib/Order.v)
-   leaves the connection in exactly the state that the same calls, issued one after the other from ordinary code, leave it in.
-   So a history with such calls is a history of the ordering model, and every theorem above applies to it. *)
+(* RE-ENTRANT SEND: lemmas about enqueue / pump used by lib/OrderHooksProofs.v, where the history with calls issued from inside the
+   serialization of another call (hook table, lib/Order.v pump_h / issue_h / release_h / nrun) is proved to be the flat history. *)
 
 Lemma issue_busy i s p : cur s = Some p -> issue1 s i = enqueue i s.
 Proof. intros H. unfold issue1, issue, enqueue. rewrite H. cbn [is_none andb]. reflexivity. Qed.
@@ -1779,69 +1778,3 @@ Proof.
     replace (S (List.length (sendq s) + S (List.length r))) with (S (S (List.length (sendq s)) + List.length r)) by lia.
     rewrite IH. rewrite (enqueue_then_pump i (sendq s) s eq_refl Ec). reflexivity.
 Qed.
-
-(* the two ways a running producer can go on after the hooks have run *)
-Lemma go_on_written c inner s :
-  go_on c 0 inner s = fold_left issue1 inner (pump (S (List.length (sendq s))) (wrote c (with_cur None s))).
-Proof.
-  unfold go_on. rewrite fold_enqueue_len, fold_enqueue_with_cur, fold_enqueue_wrote.
-  pose proof (enqueue_many_then_pump inner (wrote c (with_cur None s)) eq_refl) as H.
-  change (sendq (wrote c (with_cur None s))) with (sendq s) in H. exact H.
-Qed.
-
-Lemma go_on_paused c k inner s :
-  go_on c (S k) inner s = fold_left issue1 inner (with_cur (Some (c, S k)) s).
-Proof.
-  unfold go_on. rewrite fold_enqueue_with_cur. symmetry. apply (fold_issue_busy inner _ (c, S k)). reflexivity.
-Qed.
-
-Theorem issue_nested_is_sequence st f inner s : cur s = None -> sendq s = [] ->
-  issue_nested st f inner s = fold_left issue1 inner (issue st f s).
-Proof.
-  intros Ec Eq. unfold issue_nested, issue. rewrite idle_test_before_enqueue, Ec, Eq. cbn [is_none is_nil andb].
-  rewrite sendq_put. cbn [app List.length]. rewrite sendq_take.
-  cbn [pump cur sendq]. rewrite sendq_take. cbn [stalls].
-  destruct st as [|k].
-  - rewrite go_on_written. cbn [sendq List.length]. unfold wrote, with_cur.
-    cbn [next_id sendq cur wire inq waiting evq trace lost dropped early cut pump]. rewrite sendq_take. reflexivity.
-  - rewrite go_on_paused. reflexivity.
-Qed.
-
-Theorem release_nested_is_sequence inner s p : cur s = Some p ->
-  release_nested inner s = fold_left issue1 inner (release s).
-Proof.
-  intros Ec. unfold release_nested, release. rewrite Ec. destruct p as [c [|[|m]]].
-  - rewrite go_on_written. reflexivity.
-  - rewrite go_on_written. reflexivity.
-  - rewrite go_on_paused. reflexivity.
-Qed.
-
-Lemma fold_issue_ops inner : forall s, fold_left step (issue_ops inner) s = fold_left issue1 inner s.
-Proof. induction inner as [|i r IH]; intros s; cbn [issue_ops map fold_left]; [reflexivity|]. apply IH. Qed.
-
-(* on every reachable state: a call whose serialization issues further calls = those calls issued in a row *)
-Theorem reentrant_issue_is_history ops st f inner : cur (run ops) = None ->
-  issue_nested st f inner (run ops) = run (ops ++ Issue st f :: issue_ops inner).
-Proof.
-  intros Ec. rewrite (issue_nested_is_sequence st f inner _ Ec (sender_never_idle_with_work ops Ec)).
-  unfold run. rewrite fold_left_app. cbn [fold_left step]. rewrite fold_issue_ops. reflexivity.
-Qed.
-
-Theorem reentrant_issue_after_pause_is_history ops inner p : cur (run ops) = Some p ->
-  release_nested inner (run ops) = run (ops ++ StallRelease :: issue_ops inner).
-Proof.
-  intros Ec. rewrite (release_nested_is_sequence inner _ p Ec).
-  unfold run. rewrite fold_left_app. cbn [fold_left step]. rewrite fold_issue_ops. reflexivity.
-Qed.
-
-(* non-vacuity: call 0 (idle sender) issues 1 and 2 from inside its serialization, pauses; 3 is issued from ordinary code; the
-   pause ends and 4 is issued from inside; everything arrives in issue order *)
-Example reentrant_example :
-  let s := release_nested [(0, FPlain)] (issue 0 FPlain (issue_nested 1 FPlain [(0, FPlain); (1, FPlain)] init)) in
-  (ids (wire s), cur_ids s, ids (sendq s)) = ([0; 1], [2], [3; 4]).
-Proof. vm_compute. reflexivity. Qed.
-
-Example reentrant_example_entered :
-  entered (run ([Issue 1 FPlain] ++ issue_ops [(0, FPlain); (1, FPlain)] ++ [Issue 0 FPlain; StallRelease] ++ issue_ops [(0, FPlain)]
-                ++ [StallRelease; Deliver; Deliver; Deliver; Deliver; Deliver; Turn; Turn; Turn; Turn; Turn])) = [0; 1; 2; 3; 4].
-Proof. vm_compute. reflexivity. Qed.
